@@ -2,6 +2,7 @@ package rules
 
 import (
 	"fmt"
+	"go/token"
 	"go/types"
 	"sort"
 	"strings"
@@ -230,6 +231,8 @@ func ruleC17(c *Ctx) {
 					R.Check(len(bad2) == 0, key, c.FPos(start), "per-path: rewritten by StartPath on every path that leaves the path enabled", "still depends on "+strings.Join(bad2, ","))
 				case name == "stops":
 					R.OK(key, c.FPos(reset), "scratch: elements [0,NSTOPS) are written by initGradient before Gradient.Init reads stops[:NSTOPS] in the same call (exception table)")
+				case c.fieldOnlyRead(r.T, i):
+					R.OK(key, c.FPos(reset), "never written: no function of the module stores into the field or takes its address for anything but a load, so it cannot carry history")
 				default:
 					R.Bad(key, c.FPos(reset), "configuration, reset by Reset, or per-path state", "keeps "+strings.Join(bad, ",")+" across Reset")
 				}
@@ -341,6 +344,40 @@ func pendingIsZero(t *sym.Term) bool {
 		}
 		if k, ok := v.Int64(); !ok || k != 0 {
 			return false
+		}
+	}
+	return true
+}
+
+// fieldOnlyRead: every use of field number idx of struct type t in the module is a load of the field's value (the
+// address is taken only to be dereferenced at once). Such a field is never assigned individually.
+func (c *Ctx) fieldOnlyRead(t types.Type, idx int) bool {
+	for _, fn := range c.P.AllFuncs() {
+		for _, b := range fn.Blocks {
+			for _, ins := range b.Instrs {
+				fa, ok := ins.(*ssa.FieldAddr)
+				if !ok || fa.Field != idx {
+					continue
+				}
+				pt, ok := fa.X.Type().Underlying().(*types.Pointer)
+				if !ok || !types.Identical(pt.Elem(), t) {
+					continue
+				}
+				if fa.Referrers() == nil {
+					return false
+				}
+				for _, r := range *fa.Referrers() {
+					switch u := r.(type) {
+					case *ssa.UnOp:
+						if u.Op != token.MUL {
+							return false
+						}
+					case *ssa.DebugRef:
+					default:
+						return false
+					}
+				}
+			}
 		}
 	}
 	return true
